@@ -19,6 +19,16 @@ import (
 
 func init() { register(extractC10Tok) }
 
+// round 4: everything the token-leg translator passes over WITHOUT emitting an op (reads by name, calls that do not
+// receive the ctx, plain assignments, the `!found` early return, error tests of the previous line, returns of an error
+// variable) is recorded here in full and printed into Gen/C10Tok.lean (`erc20LegSkipped`); Props/C10.lean compares the
+// list with the reviewed one, so that a new statement kind in handlerERC20Token / convertERC20 is noticed.
+var c10tokSkipped [][2]string
+
+func (t *c10tokCtx) skip(why string, n ast.Node) {
+	c10tokSkipped = append(c10tokSkipped, [2]string{why, c09flat(t.c.src(n))})
+}
+
 type c10tokCtx struct {
 	c      *ctxT
 	decls  map[string]*ast.FuncDecl
@@ -70,6 +80,7 @@ func (t *c10tokCtx) call(ce *ast.CallExpr, checked bool) []string {
 				case name == "Burn" && len(ce.Args) == 2:
 					return []string{".burn " + by + " " + t.who(ce.Args[0]) + " " + ck}
 				case name == "BalanceOf" || name == "TotalSupply" || name == "Decimals":
+					t.skip("erc20-view", ce)
 					return nil
 				}
 				return []string{".unknown " + leanStr(c09flat(t.c.src(ce)))}
@@ -116,6 +127,11 @@ func (t *c10tokCtx) call(ce *ast.CallExpr, checked bool) []string {
 		return ops
 	}
 	if c09IsRead(name) || !hasCtx {
+		if c09IsRead(name) {
+			t.skip("read", ce)
+		} else {
+			t.skip("no-ctx", ce)
+		}
 		return nil
 	}
 	return []string{".unknown " + leanStr(c09flat(t.c.src(ce)))}
@@ -131,6 +147,7 @@ func (t *c10tokCtx) block(list []ast.Stmt) []string {
 					if calleeName(ce) == "NewERC20Call" && len(ce.Args) >= 3 && len(s.Lhs) == 1 {
 						if id, ok := s.Lhs[0].(*ast.Ident); ok {
 							t.erc20[id.Name] = t.who(ce.Args[1])
+							t.skip("erc20-call-object", st)
 							continue
 						}
 					}
@@ -141,7 +158,11 @@ func (t *c10tokCtx) block(list []ast.Stmt) []string {
 						}
 					}
 					ops = append(ops, t.call(ce, checked)...)
+				} else {
+					t.skip("assign", st)
 				}
+			} else {
+				t.skip("assign", st)
 			}
 		case *ast.IfStmt:
 			if s.Init != nil {
@@ -153,10 +174,12 @@ func (t *c10tokCtx) block(list []ast.Stmt) []string {
 				}
 			}
 			if c10tokChecked(s) {
+				t.skip("error-test", st)
 				continue // the test of an error assigned on the previous line
 			}
 			cond := c09flat(t.c.src(s.Cond))
 			if cond == "!found" {
+				t.skip("not-found-return", st)
 				continue // unknown token pair: nothing has moved yet
 			}
 			thn := t.block(s.Body.List)
@@ -171,16 +194,25 @@ func (t *c10tokCtx) block(list []ast.Stmt) []string {
 		case *ast.ExprStmt:
 			if ce, ok := s.X.(*ast.CallExpr); ok {
 				ops = append(ops, t.call(ce, false)...)
+			} else {
+				t.skip("expr", st)
 			}
 		case *ast.ReturnStmt:
+			failed := false
 			if len(s.Results) > 0 {
 				last := s.Results[len(s.Results)-1]
 				if !isNilIdent(last) {
 					if id, ok := last.(*ast.Ident); !ok || !strings.HasPrefix(id.Name, "err") {
 						ops = append(ops, ".fail")
+						failed = true
 					}
 				}
 			}
+			if !failed {
+				t.skip("return", st)
+			}
+		default:
+			t.skip("other", st)
 		}
 	}
 	return ops
@@ -199,6 +231,7 @@ func wrapOps(ops []string) []string {
 }
 
 func extractC10Tok(c *ctxT) {
+	c10tokSkipped = nil
 	var sb strings.Builder
 	sb.WriteString("namespace FxVerif.Gen.C10Tok\n\n")
 	sb.WriteString(`inductive Who | sender | precompile | erc20Module | tokenContract | other (src : String)
@@ -240,6 +273,15 @@ inductive TOp
 	sb.WriteString("/-- x/crosschain/precompile (*Keeper).handlerERC20Token(ctx, evm, sender, token, amount) with convertERC20 inlined -/\n")
 	sb.WriteString("def erc20LegParams : List String := " + leanStrs(params) + "\n")
 	sb.WriteString("def erc20Leg : List TOp := " + leanList(wrapOps(ops)) + "\n\n")
+	sb.WriteString("/-- every statement / call of handlerERC20Token (helpers inlined) the translator passed over without emitting an op, in full -/\n")
+	sb.WriteString("def erc20LegSkipped : List (String × String) := [\n  " + strings.Join(func() []string {
+		var r []string
+		for _, x := range c10tokSkipped {
+			r = append(r, "("+leanStr(x[0])+", "+leanStr(x[1])+")")
+		}
+		return r
+	}(), ",\n  ") + "]\n\n")
+	c.facts["C10.erc20LegSkipped"] = c10tokSkipped
 	// call sites: the argument handed in as `sender` by every Run that calls the handler
 	type site struct{ Method, Sender string }
 	var sites []string
